@@ -452,8 +452,22 @@ def numbered_path(n, mode, seed=0):
     return A
 
 
+def hub_graph(n, nh, seed=0):
+    """directed sparse background plus nh hubs that send to ~90 % of the nodes and hear back from about half of those"""
+    rs = np.random.RandomState(seed)
+    A = (rs.rand(n, n) < 2.0 / n).astype(float)
+    hubs = rs.choice(n, size=nh, replace=False)
+    for h in hubs:
+        out = rs.rand(n) < .9
+        A[h, out] = 1
+        back = out & (rs.rand(n) < .5)
+        A[back, h] = 1
+    np.fill_diagonal(A, 0)
+    return A
+
+
 NAMED = {
-    'tri_cactus': tri_cactus, 'reversed_comb': reversed_comb, 'numbered_path': numbered_path,
+    'tri_cactus': tri_cactus, 'hub_graph': hub_graph, 'reversed_comb': reversed_comb, 'numbered_path': numbered_path,
     'path': path, 'cycle': cycle, 'star': star, 'wheel': wheel, 'complete': complete, 'kab': kab,
     'circulant': circulant, 'hypercube': hypercube, 'grid': grid, 'prufer': prufer_tree,
     'tree_chords': tree_chords, 'barbell': barbell, 'ring_of_cliques': ring_of_cliques,
